@@ -161,10 +161,14 @@ def run_family(prog, fam_name, setup, post, contracts=None, force_contract=(), b
             ob.res = res
             fam.obls.append(ob)
 
-        def emit(clause, props, goal, info=None, extra=()):
+        def emit(clause, props, goal, info=None, extra=(), cases=None):
             ob = Obl(f"{fam_name}/{clause}@{idx}", props, list(res.pc) + facts + list(extra), goal,
                      kind="post", info=info, bounded=bnd, path_labels=res.labels)
             ob.res = res
+            ob.cases = cases
+            ob.clause = clause
+            ob.fam_name = fam_name
+            ob.idx = idx
             fam.obls.append(ob)
         post(I, res, emit)
     fam.seconds = time.time() - t0
